@@ -149,10 +149,17 @@ def binary_status(ctx, cr):
                 item = ty.args()[0] if ty is not None and ty.args() else None
                 if item is not None and item.adt_path() == VER:
                     cl = classify(mon)
-                    if cl is not None and cl[1] != "QueryIn" and not mon.get("e_pushed"):
+                    # (an element handled by a loop over a collection of its own values contributes one status per value; a collection that
+                    #  turned out empty on this path contributes none — that is the QueryIn case, or any arm written as such a loop)
+                    if cl is not None and cl[1] != "QueryIn" and not mon.get("e_pushed") and not mon.get("e_inner_empty"):
                         problems.append("element %s produced no status" % (cl,))
-                    return [(("enum", ai.OPTION, 1, (a.sym(st, "ELEM"),)), mon.set(e_ver=None, e_cr=None, e_cmp=None, e_pushed=False)),
-                            (("enum", ai.OPTION, 0, ()), mon.set(e_ver=None, e_cr=None, e_cmp=None, e_pushed=False, loop_done=True))]
+                    return [(("enum", ai.OPTION, 1, (a.sym(st, "ELEM"),)), mon.set(e_ver=None, e_cr=None, e_cmp=None, e_pushed=False, e_inner_empty=False)),
+                            (("enum", ai.OPTION, 0, ()), mon.set(e_ver=None, e_cr=None, e_cmp=None, e_pushed=False, e_inner_empty=False, loop_done=True))]
+                if st.top is st.frames[0] and mon.get("e_ver") is not None:
+                    site = a.site(st)
+                    first = not mon.get("inner:" + site)
+                    return [(("enum", ai.OPTION, 1, (a.sym(st, site + ":value"),)), mon.set(**{"inner:" + site: True})),
+                            (("enum", ai.OPTION, 0, ()), mon.set(e_inner_empty=bool(mon.get("e_inner_empty")) or first, **{"inner:" + site: False}))]
                 return None
             if p == "std::vec::Vec::push" and len(args) == 2:
                 v = a.deep(st, args[1])
